@@ -25,9 +25,21 @@ def dec(s):
     v, _ = pv(0)
     return v
 
+def coq_val(v):
+    """A decoded value in Coq concrete syntax (for the in-Coq cross-check of the extracted runner)."""
+    if isinstance(v, bool): return '(VN %d)' % (1 if v else 0)
+    if isinstance(v, int): return '(VN %d)' % v
+    if isinstance(v, (bytes, bytearray)): return '(VB [%s])' % ';'.join(str(b) for b in bytes(v))
+    if isinstance(v, str): return coq_val(v.encode('utf-8', 'surrogatepass'))
+    if isinstance(v, (list, tuple)): return '(VL [%s])' % ';'.join(coq_val(x) for x in v)
+    raise TypeError(type(v))
+
 class Model:
     def __init__(self, pid):
+        self.pid = pid
         self.path = os.path.join(BIN, 'modelrun_%s' % pid)
+        self.sample = []          # (call, result) pairs kept for the in-Coq cross-check
+        self.seen = 0
     def batch(self, calls, stack_mb=4096):
         """Evaluate a list of calls; returns list of decoded results (or '!…' strings)."""
         if not calls: return []
@@ -38,6 +50,16 @@ class Model:
         if lines and lines[-1] == '': lines.pop()
         if len(lines) != len(calls):
             raise RuntimeError('model runner returned %d lines for %d calls (rc=%s): %s' % (len(lines), len(calls), p.returncode, p.stderr[:500]))
-        return [l if l.startswith('!') else dec(l) for l in lines]
+        outs = [l if l.startswith('!') else dec(l) for l in lines]
+        import random
+        rnd = random.Random(self.seen)
+        for c, l, o in zip(calls, lines, outs):
+            self.seen += 1
+            if l.startswith('!') or len(l) > 1500: continue
+            ec = enc(c)
+            if len(ec) > 1500: continue
+            if len(self.sample) < 40: self.sample.append((c, o))
+            elif rnd.random() < 40.0 / self.seen: self.sample[rnd.randrange(40)] = (c, o)
+        return outs
     def call(self, c):
         return self.batch([c])[0]
